@@ -55,8 +55,18 @@ def cpu_segment(b, cur, feats, live):
              "dyn_conv", "dyn_fc", "custom_const_in", "const_only", "shape_use", "pool_global_cpu", "topk_like", "opt_missing",
              "const_conv_cpu", "const_conv_cpu", "float_fc_const", "tconv_cpu", "custom_mid_missing", "custom_mid_missing",
              "svdf_float", "tconv_mid_missing"]
+    # operators of a kind some rewrite pass reads, kept off the NPU (reject_gen.REWRITES); --force-symmetric-int-weights cases;
+    # RESHAPE-like operators on the CPU (dimension > 65535, -1 in shape operand / new_shape, run-time or absent shape operand)
+    kinds += ["rejected"] * 12 + ["fsym"] * 5 + ["reshape_cpu"] * 4
     kind = rng.choice(kinds)
     b.net.desc.append("cpu:" + kind)
+    if kind in ("rejected", "fsym", "reshape_cpu"):
+        import reject_gen
+
+        new = {"rejected": reject_gen.rejected_op, "fsym": reject_gen.fsym_op, "reshape_cpu": reject_gen.reshape_cpu}[kind](b, cur, feats, live)
+        if new is not None:
+            return new
+        kind = "custom"
     if not _q(b, cur):
         kind = "custom"
     if kind == "custom":
@@ -464,6 +474,7 @@ def c11_net(rng, idx=0):
     b = B(rng, f"c11_{idx}", dtype)
     feats = set()
     h, w, c = rng.randint(2, 14), rng.randint(2, 14), rng.choice([2, 3, 4, 8, 16])
+    b.set_extremes(0.15)
     x = b.input([1, h, w, c])
     b.net.desc.append(f"c11 dtype={dtype} in={[1, h, w, c]}")
     live = [x]
@@ -493,6 +504,10 @@ def c11_net(rng, idx=0):
             if e not in outs:
                 outs.append(e)
                 feats.add("multiple_outputs")
+    for e in getattr(b, "extra_outputs", []):
+        if e not in outs:
+            outs.append(e)          # side results of rejected operators (second SPLIT / UNPACK result, big RESHAPE branch)
+            feats.add("multiple_outputs")
     if rng.random() < 0.5:
         rng.shuffle(outs)
     # a dead branch: operators that do not reach any output
@@ -539,6 +554,10 @@ def c11_net(rng, idx=0):
                 t.qmax = [float(np.float32(t.scales[0] * (hi - z)))]
                 feats.add("quantisation_min_max")
     unusual_encodings(rng, net, feats)
+    if getattr(b, "want_fsym", False):
+        net.extra_opts = ["--force-symmetric-int-weights"]
+    if b.extreme:
+        feats.add("quantisation_extremes")
     net.features = feats
     return net
 
